@@ -44,14 +44,24 @@ Qed.
 Lemma go_isUsingExpectedSingleSequencer : forall mg sh,
   run_fun gen_funs [] "Manager.isUsingExpectedSingleSequencer" (Some (VMgr mg)) [VSHeader sh] =
   Some [VBool (is_expected_sequencer (mg_genesis mg) sh)].
-Proof. intros mg sh; destruct mg as [[gc gi gp] bt]; destruct sh as [h sg [[p|] a]]; destruct h; gsolve. Qed.
+Proof. intros mg sh; destruct mg as [[gc gi gp] bt hs ds]; destruct sh as [h sg [[p|] a]]; destruct h; gsolve. Qed.
 
 (* block/manager.go Manager.isValidSignedData  =  Admission.is_valid_signed_data (non-nil item, non-nil Txs) *)
 Lemma go_isValidSignedData : forall mg sd,
   run_fun gen_funs [] "Manager.isValidSignedData" (Some (VMgr mg)) [VOSData (Some sd)] =
   Some [VBool (is_valid_signed_data (mg_genesis mg) sd)].
-Proof. intros mg sd; destruct mg as [[gc gi gp] bt]; destruct sd as [d sg [[p|] a]]; gsolve. Qed.
+Proof. intros mg sd; destruct mg as [[gc gi gp] bt hs ds]; destruct sd as [d sg [[p|] a]]; gsolve. Qed.
 
 Lemma go_isValidSignedData_nil : forall mg,
   run_fun gen_funs [] "Manager.isValidSignedData" (Some (VMgr mg)) [VOSData None] = Some [VBool false].
 Proof. intros mg; gsolve. Qed.
+
+(* every lemma is closed under the global context (bin/tr-golite fails on any "Axioms:" line) *)
+Print Assumptions go_Header_ValidateBasic.
+Print Assumptions go_Signature_ValidateBasic.
+Print Assumptions go_SignedHeader_ValidateBasic.
+Print Assumptions go_Validate.
+Print Assumptions go_execValidate.
+Print Assumptions go_isUsingExpectedSingleSequencer.
+Print Assumptions go_isValidSignedData.
+Print Assumptions go_isValidSignedData_nil.
